@@ -57,22 +57,33 @@ ASSUMPTIONS = [
 SHAPES = ["wfile", "wdir", "wlink", "wstr", "wfbytes", "wfbuf", "wall"]
 
 
-def F(kind, flavour, k=0, sticky=True, elem=0):
-    return {"kind": kind, "flavour": flavour, "k": k, "sticky": sticky, "elem": elem}
+def F(kind, flavour, k=0, sticky=True, elem=0, exc="os"):
+    """exc: class of the injected exception: os (OSError with the flavour's errno), value (ValueError),
+    runtime (RuntimeError), base (a BaseException subclass, like KeyboardInterrupt)"""
+    return {"kind": kind, "flavour": flavour, "k": k, "sticky": sticky, "elem": elem, "exc": exc}
 
 
 FAULTS_QUICK = {
     "wfile": [F("stat", "missing"), F("stat", "eacces"), F("name", "abs"), F("name", "badtype"),
               F("open", "vanish"), F("open", "eacces", sticky=False), F("open", "eio"),
-              F("read", "eio", 0, False), F("read", "eio", 3, False), F("read", "eio", 3, True)],
+              F("read", "eio", 0, False), F("read", "eio", 3, False), F("read", "eio", 3, True),
+              F("open", "exc", exc="value"), F("open", "exc", sticky=False, exc="base"),
+              F("read", "exc", 0, False, exc="runtime"), F("read", "exc", 3, False, exc="value"),
+              F("read", "exc", 3, True, exc="base")],
     "wdir": [F("stat", "missing"), F("name", "abs")],
-    "wlink": [F("stat", "eacces"), F("name", "abs"), F("open", "dangling"), F("open", "eacces", sticky=False)],
+    "wlink": [F("stat", "eacces"), F("name", "abs"), F("open", "dangling"), F("open", "eacces", sticky=False),
+              F("open", "exc", exc="value")],
     "wstr": [F("name", "bad"), F("stat", "badtype")],
-    "wfbytes": [F("name", "bad"), F("read", "eio", 0, False), F("read", "eio", 3, False), F("read", "eio", 3, True)],
+    "wfbytes": [F("name", "bad"), F("read", "eio", 0, False), F("read", "eio", 3, False), F("read", "eio", 3, True),
+                F("read", "exc", 0, False, exc="value"), F("read", "exc", 3, False, exc="value"),
+                F("read", "exc", 3, False, exc="base")],
     "wfbuf": [F("name", "bad"), F("stat", "textio"), F("stat", "tell"), F("read", "eio", 3, False),
-              F("read", "eio", 0, True)],
+              F("read", "eio", 0, True), F("read", "exc", 3, False, exc="runtime")],
     "wall": [F("stat", "missing"), F("stat", "eacces", elem=1), F("open", "vanish", elem=1),
-             F("open", "eacces", sticky=False, elem=3), F("read", "eio", 3, False, elem=1)],
+             F("open", "eacces", sticky=False, elem=3), F("read", "eio", 3, False, elem=1),
+             F("open", "exc", elem=1, exc="value"), F("read", "exc", 3, False, elem=3, exc="runtime"),
+             F("open", "eloop", elem=1), F("stat", "eloop", elem=3), F("open", "eacces", elem=4),
+             F("read", "eio", 3, False, elem=6)],
 }
 FAULTS_THOROUGH = {
     "wfile": FAULTS_QUICK["wfile"] + [F("stat", "eio"), F("open", "eacces"), F("read", "eio", 1, False),
@@ -94,8 +105,23 @@ EXC_OF = {
     ("stat", "badtype"): "ValueError", ("stat", "textio"): "ValueError", ("stat", "object"): "ValueError",
     ("stat", "tell"): "OSError", ("open", "vanish"): "FileNotFoundError", ("open", "eacces"): "PermissionError",
     ("open", "eio"): "OSError", ("open", "dangling"): "OSError", ("read", "eio"): "OSError",
+    ("open", "eloop"): "OSError", ("stat", "eloop"): "OSError",
 }
-ERRNO = {"eacces": errno.EACCES, "eio": errno.EIO}
+ERRNO = {"eacces": errno.EACCES, "eio": errno.EIO, "eloop": errno.ELOOP, "exc": errno.EIO}
+
+
+class Interrupt(BaseException):
+    """stands for KeyboardInterrupt / SystemExit arriving while a source is read"""
+
+
+EXC_CLASS = {"value": ValueError, "runtime": RuntimeError, "base": Interrupt}
+
+
+def make_exc(spec, key=None):
+    if spec.get("exc", "os") != "os":
+        return EXC_CLASS[spec["exc"]]("injected %s" % spec["exc"])
+    no = ERRNO.get(spec["flavour"], errno.EIO)
+    return OSError(no, os.strerror(no) + " (injected)", key) if key else OSError(no, os.strerror(no) + " (injected)")
 
 
 class Timeout(BaseException):
@@ -107,9 +133,13 @@ def call_data(i):
     return bytes([65 + i]) * (8 + i)
 
 
-def tree_members(i):
-    """(relative path, kind, data) in the order _writeall visits them"""
-    return [("", "dir", b""), ("c1", "file", bytes([97 + i]) * 8), ("s", "dir", b""), ("s/c3", "file", bytes([107 + i]) * 6)]
+def tree_members(i, deref):
+    """(relative path, kind, data) in the order _writeall visits them.  On disk: c1, s/, s/c3, t -> c1, u -> s"""
+    c1, c3 = bytes([97 + i]) * 8, bytes([107 + i]) * 6
+    ms = [("", "dir", b""), ("c1", "file", c1), ("s", "dir", b""), ("s/c3", "file", c3)]
+    if deref:
+        return ms + [("t", "file", c1), ("u", "dir", b""), ("u/c3", "file", c3)]
+    return ms + [("t", "link", b"c1"), ("u", "link", b"s")]
 
 
 def link_text(i):
@@ -117,15 +147,45 @@ def link_text(i):
     return "/tmp" if i % 2 else "t%d" % i
 
 
-def call_members(i, shape):
+def call_members(i, shape, deref=False):
     """[(id, arcname, kind, data)] of call i; kind in file/dir/link/data"""
     base = 10 * i
     if shape == "wall":
         return [(base + j, "m%d" % base + ("/" + rel if rel else ""), kind, data)
-                for j, (rel, kind, data) in enumerate(tree_members(i))]
+                for j, (rel, kind, data) in enumerate(tree_members(i, deref))]
     kind = {"wfile": "file", "wdir": "dir", "wlink": "link"}.get(shape, "data")
     data = b"" if kind == "dir" else (link_text(i).encode() if kind == "link" else call_data(i))
+    if kind == "link" and deref:        # the link is followed: a file with the target's content, or a directory
+        kind, data = ("dir", b"") if i % 2 else ("file", b"T")
     return [(base, "m%d" % base, kind, data)]
+
+
+def model_kind(case, i):
+    """the fault kind as the machine sees it"""
+    f = case["fault"]
+    if case["deref"] and case["shapes"][i] == "wlink" and f["flavour"] == "dangling":
+        return "stat"       # _make_file_info: target.stat() raises before registration
+    return f["kind"]
+
+
+def swallowed(case):
+    """_writeall skips a member whose failure is an ELOOP error under dereference=True"""
+    f = case["fault"]
+    return f is not None and case["deref"] and f["flavour"] == "eloop" and case["shapes"][case["at"]] == "wall"
+
+
+def applicable(shapes, at, f, deref):
+    """does the fault fire at all in this configuration"""
+    shape = shapes[at]
+    if shape == "wall" and f["flavour"] != "missing":
+        kind = tree_members(at, deref)[f["elem"]][1] if f["elem"] < len(tree_members(at, deref)) else None
+        if kind is None:
+            return False
+        if f["kind"] in ("open", "read") and kind != "file":
+            return False        # links in the tree get no readlink fault here, directories are never opened
+    if shape == "wlink" and deref and f["kind"] == "open" and f["flavour"] != "dangling" and at % 2:
+        return False            # the followed link is a directory
+    return True
 
 
 KIND_NO = {"file": 0, "dir": 1, "link": 2, "data": 3}
@@ -134,17 +194,19 @@ FK_NO = {"stat": 0, "name": 1, "open": 2, "read": 3}
 
 def model_ops(case):
     ops = []
+    dr = case["deref"]
     for i, shape in enumerate(case["shapes"]):
         f = case["fault"] if case["at"] == i else None
-        ms = call_members(i, shape)
+        ms = call_members(i, shape, dr)
         srcs = []
         for j, (mid, _, kind, data) in enumerate(ms):
-            mf = []
+            mf, el = [], 0
             if f is not None and (shape != "wall" or f["elem"] == j) and not (shape == "wall" and f["flavour"] == "missing"):
-                mf = [FK_NO[f["kind"]], f["k"], 1 if f["sticky"] else 0]
-            srcs.append([mid, KIND_NO[kind], list(data), mf])
+                mf = [FK_NO[model_kind(case, i)], f["k"], 1 if f["sticky"] else 0]
+                el = 1 if f["flavour"] == "eloop" else 0
+            srcs.append([mid, KIND_NO[kind], list(data), mf, el])
         if shape == "wall":
-            ops.append([3, 1 if (f is not None and f["flavour"] == "missing") else 0, srcs])
+            ops.append([3, 1 if (f is not None and f["flavour"] == "missing") else 0, srcs, 1 if dr else 0])
         else:
             ops.append([{"wfile": 0, "wdir": 0, "wlink": 0, "wstr": 1}.get(shape, 2), srcs[0]])
     return ops
@@ -153,21 +215,25 @@ def model_ops(case):
 def names_of(case):
     out = {}
     for i, shape in enumerate(case["shapes"]):
-        for mid, arc, kind, data in call_members(i, shape):
+        for mid, arc, kind, data in call_members(i, shape, case["deref"]):
             out[mid] = (arc, kind, data)
     return out
 
 
 def property_expected(case):
     """(outs, member list) the property demands: calls without fault return and leave their members,
-    the faulted call raises and leaves nothing (writeall: the members before the failing one)"""
+    the faulted call raises and leaves nothing (writeall: the members before the failing one; an ELOOP
+    failure under dereference=True is skipped by design and writeall goes on)"""
     outs, ms = [], []
     for i, shape in enumerate(case["shapes"]):
         f = case["fault"] if case["at"] == i else None
-        mem = call_members(i, shape)
+        mem = call_members(i, shape, case["deref"])
         if f is None:
             outs.append("ok")
             ms += mem
+        elif swallowed(case):
+            outs.append("ok")
+            ms += mem[:f["elem"]] + mem[f["elem"] + 1:]
         else:
             outs.append("raise")
             if shape == "wall" and f["flavour"] != "missing":
@@ -189,7 +255,7 @@ class FaultyFile:
                 if not self.spec["sticky"]:
                     self.armed = False
                     self.table.pop(self.key, None)
-                raise OSError(errno.EIO, "Input/output error (injected)", self.key)
+                raise make_exc(self.spec, self.key)
             if n is None or n < 0 or pos + n > self.spec["k"]:
                 n = self.spec["k"] - pos
         return self.inner.read(n)
@@ -216,7 +282,7 @@ class FaultyBytesIO(io.BytesIO):
             if pos >= self.spec["k"]:
                 if not self.spec["sticky"]:
                     self.armed = False
-                raise OSError(errno.EIO, "Input/output error (injected)")
+                raise make_exc(self.spec)
             if n is None or n < 0 or pos + n > self.spec["k"]:
                 n = self.spec["k"] - pos
         return super().read(n)
@@ -243,7 +309,7 @@ class FaultyBuffered(io.BufferedIOBase):
             if pos >= self.spec["k"]:
                 if not self.spec["sticky"]:
                     self.armed = False
-                raise OSError(errno.EIO, "Input/output error (injected)")
+                raise make_exc(self.spec)
             if n is None or n < 0 or pos + n > self.spec["k"]:
                 n = self.spec["k"] - pos
         return self.b.read(n)
@@ -262,7 +328,7 @@ class Patches:
         def lstat(p):
             f = me.lstat.get(os.fspath(p))
             if f is not None:
-                raise OSError(ERRNO[f["flavour"]], os.strerror(ERRNO[f["flavour"]]) + " (injected)", os.fspath(p))
+                raise make_exc(f, os.fspath(p))
             return me.real_lstat(p)
 
         def popen(p, *a, **k):
@@ -277,7 +343,7 @@ class Patches:
                     if os.path.exists(key):
                         os.unlink(key)
                     return me.real_open(p, *a, **k)
-                raise OSError(ERRNO[f["flavour"]], os.strerror(ERRNO[f["flavour"]]) + " (injected)", key)
+                raise make_exc(f, key)
             return me.real_open(p, *a, **k)
 
         def rdlink(p, *a, **k):
@@ -286,7 +352,7 @@ class Patches:
             if f is not None:
                 if not f["sticky"]:
                     del me.readlink[key]
-                raise OSError(ERRNO[f["flavour"]], os.strerror(ERRNO[f["flavour"]]) + " (injected)", key)
+                raise make_exc(f, key)
             return me.real_readlink(p, *a, **k)
 
         pathlib.Path.lstat, pathlib.Path.open, P.readlink = lstat, popen, rdlink
@@ -311,7 +377,7 @@ class Alarm:
         signal.signal(signal.SIGALRM, self.old)
 
 
-def build_call(i, shape, fault, d, pt):
+def build_call(i, shape, fault, d, pt, deref=False):
     """materialise the source of call i under directory d; returns fn(z)"""
     src = os.path.join(d, "s%d" % i)
     arc = "m%d" % (10 * i)
@@ -346,7 +412,10 @@ def build_call(i, shape, fault, d, pt):
         if fk == "stat" and fl != "missing":
             pt.lstat[src] = fault
         if fk == "open" and fl != "dangling":
-            pt.readlink[src] = fault
+            if deref:
+                pt.open[src] = fault       # the link is followed: Path.open on the link's path
+            else:
+                pt.readlink[src] = fault
         return lambda z: z.write(src, arc)
     if shape == "wstr":
         if fl == "badtype":
@@ -363,15 +432,16 @@ def build_call(i, shape, fault, d, pt):
     if shape == "wall":
         if fl == "missing":
             return lambda z: z.writeall(src, arc)
-        paths = []
-        for rel, kind, data in tree_members(i):
+        for rel, kind, data in tree_members(i, False):
             p = os.path.join(src, rel) if rel else src
-            paths.append(p)
             if kind == "dir":
                 os.mkdir(p)
+            elif kind == "link":
+                os.symlink(data.decode(), p)
             else:
                 with open(p, "wb") as fh:
                     fh.write(data)
+        paths = [os.path.join(src, rel) if rel else src for rel, _, _ in tree_members(i, deref)]
         if fault:
             p = paths[fault["elem"]]
             if fk == "stat":
@@ -407,12 +477,12 @@ def run_session(case):
     obs = {"outs": [], "msgs": [], "state": None, "close": None, "read": None, "targeted": None}
     try:
         with Patches() as pt, Alarm(30):
-            calls = [build_call(i, shape, case["fault"] if case["at"] == i else None, d, pt)
+            calls = [build_call(i, shape, case["fault"] if case["at"] == i else None, d, pt, case["deref"])
                      for i, shape in enumerate(case["shapes"])]
             bio = io.BytesIO()
             apath = os.path.join(d, "out.7z")
             dest = bio if case["target"] == "bytesio" else apath
-            z = py7zr.SevenZipFile(dest, "w", filters=arch.CHAINS[case["chain"]])
+            z = py7zr.SevenZipFile(dest, "w", filters=arch.CHAINS[case["chain"]], dereference=case["deref"])
             if not case.get("enc", True):
                 z.set_encoded_header_mode(False)   # the LZMA coder of the encoded header costs 16 ms per close
             if case["close"] == "ctx":
@@ -422,7 +492,9 @@ def run_session(case):
                     fn(z)
                     obs["outs"].append("ok")
                     obs["msgs"].append("")
-                except Exception as e:  # noqa
+                except Timeout:
+                    raise
+                except BaseException as e:  # noqa  (the injected BaseException subclass included)
                     obs["outs"].append(type(e).__name__)
                     obs["msgs"].append(str(e)[:120])
             obs["state"] = observe_state(z)
